@@ -15,7 +15,9 @@ Inductive c15case :=
 | CField (field : Z) (rows : list row)    (* every access site of one field *)
 | CStale (n : Z)                          (* a line of tools/locksets/justify.txt that no longer matches the source *)
 | CUnanalysed (n : Z)                     (* a function whose locking is path-sensitive: rejected, not analysed *)
-| CRaceRun (workload : Z) (procs : Z) (reports : Z)   (* a workload under the race detector: reports with a goat frame *)
+| CRaceRun (workload : Z) (procs : Z) (reports : Z) (traffic : Z)
+    (* a workload under the race detector: reports with a goat frame; how much went through (successful calls +
+       messages + envelopes): a workload that does nothing proves nothing, so zero traffic is a broken tie *)
 | CRace (n : Z).                          (* one such report (the replay is the report) *)
 
 Definition check (c : c15case) : list nat :=
@@ -25,7 +27,7 @@ Definition check (c : c15case) : list nat :=
       (if race_free_table rows then [] else [2%nat])
   | CStale _ => [1%nat]
   | CUnanalysed _ => [1%nat]
-  | CRaceRun _ _ n => if n =? 0 then [] else [2%nat]
+  | CRaceRun _ _ n traffic => (if 0 <? traffic then [] else [1%nat]) ++ (if n =? 0 then [] else [2%nat])
   | CRace _ => [2%nat]
   end.
 
